@@ -23,7 +23,8 @@ U = ["a", "b", "c", "d"]
 
 
 def scope_strings(rng, tier):
-    out = [None, "", "a", "b", "a b", "b a", "a a", "a b c", "a z", "z", "a  b", " a", "a\tb", "d c b a", "a b c d"]
+    out = [None, "", "a", "b", "a b", "b a", "a a", "a b c", "a z", "z", "a  b", " a", "a\tb", "d c b a", "a b c d",
+           "ab", "profile", "admin profile:read", "c ab"]           # scope names that are substrings of other scope names
     if tier == "thorough":
         for r in (1, 2, 3):
             for p in itertools.permutations(U, r):
@@ -35,7 +36,7 @@ def scope_strings(rng, tier):
 def cases(rng, tier):
     scopes = scope_strings(rng, tier)
     supported = [None, [], ["a"], ["a", "b"], ["a", "b", "c", "d"], ["b", "z"]]
-    allowed = ["", "a", "a b", "b c d", "a b c d", "b  a"]
+    allowed = ["", "a", "a b", "b c d", "a b c d", "b  a", "ab cd", "profile:read user:admin"]
     allc = []
     for grant in GRANTS:
         for gen in GENS:
